@@ -192,6 +192,17 @@ def check(case):
         w = np.asarray(w)
         if op in INEXACT and w.dtype.kind == "f":
             A.same_array(g, w, exact=False, rtol=1e-12, atol=1e-12, what=f"{what} [result {j}]", sig=psig)
+        elif op == "unique" and sig["nan"] and j > 0:
+            # input class of finding 'unique-nan-*': say whether a mismatch is confined to the collapsed NaN entry
+            try:
+                A.same_array(g, w, what=f"{what} [result {j}]", sig=psig)
+            except Violation as v:
+                if v.sig.get("symptom") != "value-mismatch":
+                    raise
+                kind = [k for k, on in (("index", a["index"]), ("inverse", a["inverse"]), ("counts", a["counts"])) if on][j - 1]
+                nanpos = np.isnan(nps[0]) if kind == "inverse" else np.isnan(np.asarray(wparts[0]))
+                confined = g.shape == w.shape == nanpos.shape and np.array_equal(g[~nanpos], w[~nanpos])
+                raise Violation(v.message, "value-mismatch", **dict(psig, part_kind=kind, only_nan_entry=bool(confined))) from None
         else:
             A.same_array(g, w, what=f"{what} [result {j}]", sig=psig)
         if isinstance(p, da.Array):
@@ -261,14 +272,33 @@ def mk(op, arrays, args, kinds=None):
 # strategies
 
 
+def tame(arr, ravels=False):
+    """Remove the pathological strata that are NOT explored here because they fail in shared machinery that other properties
+    own, not in the routines C27 is about (see ASSUMPTIONS):
+    * an explicit zero-size chunk on an axis of length <= 1 (chunks (1, 0) / (0, 1) / (0, 0)): elementwise broadcasting treats the
+      axis as length-1-broadcastable and merges it to one block while the output keeps two (``(d + 1).compute()`` has the wrong
+      length) -- C19's finding 'zero-chunk-on-len1-axis';
+    * for routines that flatten their input first (``ravels``: unique, nonzero/argwhere/flatnonzero, compress(axis=None)) n-d
+      inputs with explicit zero-size chunks or zero-length axes: ``da.ravel``/``reshape`` itself raises there (C24's subject).
+      1-d inputs keep both strata."""
+    shape, chunks = list(arr["shape"]), [list(c) for c in arr["chunks"]]
+    nd_ravel = ravels and len(shape) > 1
+    for i, n in enumerate(shape):
+        if nd_ravel and n == 0:
+            shape[i], chunks[i] = 1, [1]
+        elif n <= 1 or nd_ravel:
+            chunks[i] = [c for c in chunks[i] if c] or [0]
+    return dict(arr, shape=shape, chunks=chunks)
+
+
 @st.composite
-def data(draw, nd=None, max_dims=2, top=None, dtypes=("i8", "f8", "i4"), nan=False, min_side=1, zero_p=0.1, fills=INT_FILLS, shape=None):
+def data(draw, nd=None, max_dims=2, top=None, dtypes=("i8", "f8", "i4"), nan=False, min_side=1, zero_p=0.1, fills=INT_FILLS, shape=None, ravels=False):
     if shape is None:
         nd = draw(st.integers(1, max_dims)) if nd is None else nd
         top = top or {1: 12, 2: 6, 3: 4}[nd]
         lo = 0 if 40 <= draw(st.integers(0, 99)) < 46 else min_side
         shape = [draw(st.integers(lo, top)) for _ in range(nd)]
-    arr = draw(C.arr(shape=shape, dtypes=dtypes, fills=fills, zero_p=zero_p))
+    arr = tame(draw(C.arr(shape=shape, dtypes=dtypes, fills=fills, zero_p=zero_p)), ravels)
     if nan and np.dtype(arr["dtype"]).kind == "f" and draw(st.integers(0, 2)) == 0:
         arr["special"] = ["nan"] * draw(st.integers(1, 3))
     return arr
@@ -294,7 +324,7 @@ def edges(draw, lo=-1, hi=6, decreasing=False):
 
 @st.composite
 def unique_case(draw):
-    arr = draw(data(max_dims=3, nan=True))
+    arr = draw(data(max_dims=3, nan=True, ravels=True))
     return mk("unique", [arr], {"index": draw(st.booleans()), "inverse": draw(st.booleans()), "counts": draw(st.booleans())})
 
 
@@ -359,7 +389,9 @@ def search_case(draw):
         return mk(op, [arr], {"bins": draw(edges(decreasing=dec)), "right": draw(st.booleans())})
     hay = draw(data(nd=1, nan=False, dtypes=("i8", "f8")))
     hay["sorted"] = True
-    needles = draw(data(max_dims=2, nan=False, dtypes=("i8", "f8"), fills=("dups", "small")))
+    # (n-d needles with explicit zero-size chunks are not explored: the max(axis=0) over the per-block results then fails inside
+    # the reduction/concatenate machinery, which is C22's zero-size-chunk finding, not searchsorted's offset logic)
+    needles = draw(data(max_dims=2, nan=False, dtypes=("i8", "f8"), fills=("dups", "small"), ravels=True))
     return mk(op, [hay, needles], {"side": draw(st.sampled_from(["left", "right"]))})
 
 
@@ -382,7 +414,7 @@ def isin_case(draw):
 @st.composite
 def nonzero_case(draw):
     op = draw(st.sampled_from(["nonzero", "argwhere", "flatnonzero", "count_nonzero", "count_nonzero"]))
-    arr = draw(data(max_dims=3, dtypes=("i8", "f8", "bool"), nan=True))
+    arr = draw(data(max_dims=3, dtypes=("i8", "f8", "bool"), nan=True, ravels=op != "count_nonzero"))
     if op == "count_nonzero":
         nd = len(arr["shape"])
         mode = draw(st.sampled_from(["none", "int", "tuple"]))
@@ -430,10 +462,13 @@ def compress_case(draw):
     arr = draw(data(max_dims=3, dtypes=("i8", "f8")))
     nd = len(arr["shape"])
     axis = draw(st.sampled_from([None] + list(range(-nd, nd))))
+    if axis is None:
+        arr = tame(arr, ravels=True)
     n = int(np.prod(arr["shape"])) if axis is None else arr["shape"][axis]
     m = max(0, n - draw(st.sampled_from([0, 0, 0, 1, 2])))  # conditions may be shorter than the axis
     if draw(st.integers(0, 2)) == 0:
         cond = {"shape": [m], "dtype": "i8", "seed": draw(st.integers(0, 999)), "fill": "dups", "chunks": draw(C.shape_chunks([m], zero_p=0.05)), "as_bool": True}
+        cond = tame(cond)
         return mk("compress", [arr, cond], {"cond": "array", "axis": axis}, ["da", draw(st.sampled_from(["da", "np"]))])
     return mk("compress", [arr], {"condition": [draw(st.booleans()) for _ in range(m)], "axis": axis})
 
